@@ -319,6 +319,7 @@ func RunCheck(chk *Check, tier string, seed int64) int {
 	total := Summary{Skips: map[string]int64{}, Cnt: map[string]int64{}}
 	levelStats := map[int][]LevelStat{}
 	recycles := 0
+	var violStates, violTrans int64
 	finished := 0
 	restarts := 0
 	violations := 0
@@ -361,6 +362,8 @@ func RunCheck(chk *Check, tier string, seed int64) int {
 		switch {
 		case ev.viol != nil:
 			report(ev.viol.Case, ev.viol.Res.Why, ev.viol.Res.Msg, 1, ev.viol.Res.Sig)
+			violStates += ev.viol.Res.States
+			violTrans += ev.viol.Res.Trans
 		case ev.sum != nil:
 			s := ev.sum
 			if s.Recycle {
@@ -527,6 +530,9 @@ func RunCheck(chk *Check, tier string, seed int64) int {
 		"counters":                    total.Cnt,
 	}
 	if chk.Category == "model_checking" {
+		if total.States == 0 { // run stopped early: count what the reported violations covered
+			total.States, total.Trans = violStates, total.Trans+violTrans
+		}
 		cov["states"] = total.States
 		cov["transitions"] = total.Trans
 		cov["traces_validated_against_impl"] = total.Traces
